@@ -6,6 +6,8 @@ ALL = ["C%02d" % i for i in range(1, 21)]
 BASE_OFF = "cd /repo && env -u ASCMHL_VERIF /venv/bin/python -m pytest -ra -q -p no:cacheprovider --timeout=900 --continue-on-collection-errors"
 T = "in-process CliRunner on tmpfs as accelerator, every alarm re-run in one fresh subprocess per command; CPython, hashlib, xxhash, lxml/libxml2 trusted; bounds and alphabets as listed in the evidence file"
 CHECKS = {
+ "C08": ("E1", "model_checking", "explicit-state BFS of the real file-system state graph (real create per transition, relational oracle + audit-event order)",
+         "Every command sequence up to the bound over creates at each of the (prefix-named, chained) directories, top-level create / create -n and create -sf of each file is executed, which yields every subset of nested roots in every creation order; each create is judged for routing, child root hash, references, commit order and the set of histories that get a generation.", "4 C08"),
  "C07": ("E1", "model_checking", "bounded-exhaustive exploration of trees x format sets x edits on the real code, reference recursion as oracle",
          "All parent-closed trees up to a size bound x each single format and all six together (thorough: all 63 subsets on a rich tree) are sealed by the real create, optionally with a nested child at every directory, reversed listing order or ignored entries present; every recorded and every printed (verify -dh -co) directory/root hash is compared with an independent 12-line implementation of the definition, and in-place renames / content edits are checked metamorphically.", "4 C07"),
  "C06": ("E1", "model_checking", "explicit-state BFS of the real file-system state graph (real create per transition, relational oracle)",
